@@ -14,25 +14,41 @@ pub enum SizeSyntax {
     Zero3,
     ExtName,
     ExtPair,
+    /// several extensions, one with a quoted value containing ';', '=' and blanks
+    ExtQuoted,
+    /// a quoted extension value with an obs-text byte that is not UTF-8 (0xE9)
+    ExtHighByte,
+    /// a quoted extension value with a two-byte UTF-8 sequence
+    ExtUtf8,
+    /// an extension of 1100 bytes (longer than the connection's read buffer)
+    ExtLong,
 }
 
-pub const ALL_SYNTAX: [SizeSyntax; 6] = [
+pub const ALL_SYNTAX: [SizeSyntax; 10] = [
     SizeSyntax::Lower,
     SizeSyntax::Upper,
     SizeSyntax::Zero1,
     SizeSyntax::Zero3,
     SizeSyntax::ExtName,
     SizeSyntax::ExtPair,
+    SizeSyntax::ExtQuoted,
+    SizeSyntax::ExtHighByte,
+    SizeSyntax::ExtUtf8,
+    SizeSyntax::ExtLong,
 ];
 
-pub fn size_line(n: usize, syn: SizeSyntax) -> String {
+pub fn size_line(n: usize, syn: SizeSyntax) -> Vec<u8> {
     match syn {
-        SizeSyntax::Lower => format!("{:x}", n),
-        SizeSyntax::Upper => format!("{:X}", n),
-        SizeSyntax::Zero1 => format!("0{:x}", n),
-        SizeSyntax::Zero3 => format!("000{:X}", n),
-        SizeSyntax::ExtName => format!("{:x};x", n),
-        SizeSyntax::ExtPair => format!("{:x};a=b", n),
+        SizeSyntax::Lower => format!("{:x}", n).into_bytes(),
+        SizeSyntax::Upper => format!("{:X}", n).into_bytes(),
+        SizeSyntax::Zero1 => format!("0{:x}", n).into_bytes(),
+        SizeSyntax::Zero3 => format!("000{:X}", n).into_bytes(),
+        SizeSyntax::ExtName => format!("{:x};x", n).into_bytes(),
+        SizeSyntax::ExtPair => format!("{:x};a=b", n).into_bytes(),
+        SizeSyntax::ExtQuoted => format!("{:x};a=1;q=\"x; y=z\";last", n).into_bytes(),
+        SizeSyntax::ExtHighByte => [format!("{:x};who=\"caf", n).as_bytes(), &[0xe9u8][..], b"\""].concat(),
+        SizeSyntax::ExtUtf8 => [format!("{:x};who=\"caf", n).as_bytes(), &[0xc3u8, 0xa9][..], b"\""].concat(),
+        SizeSyntax::ExtLong => format!("{:x};long={}", n, "e".repeat(1100)).into_bytes(),
     }
 }
 
@@ -44,14 +60,19 @@ pub fn chunked(body: &[u8], sizes: &[usize], syn: SizeSyntax) -> Vec<u8> {
         if s == 0 {
             continue;
         }
-        out.extend_from_slice(size_line(s, syn).as_bytes());
+        out.extend_from_slice(&size_line(s, syn));
         out.extend_from_slice(b"\r\n");
         out.extend_from_slice(&body[p..p + s]);
         out.extend_from_slice(b"\r\n");
         p += s;
     }
     assert_eq!(p, body.len());
-    out.extend_from_slice(size_line(0, if matches!(syn, SizeSyntax::Upper | SizeSyntax::Lower) { syn } else { SizeSyntax::Lower }).as_bytes());
+    // the new extension variants also decorate the last-chunk line
+    let last = match syn {
+        SizeSyntax::Upper | SizeSyntax::Lower | SizeSyntax::ExtQuoted | SizeSyntax::ExtHighByte | SizeSyntax::ExtUtf8 | SizeSyntax::ExtLong => syn,
+        _ => SizeSyntax::Lower,
+    };
+    out.extend_from_slice(&size_line(0, last));
     out.extend_from_slice(b"\r\n\r\n");
     out
 }
